@@ -304,6 +304,8 @@ Board sparse_mate_in_one()
     }
 }
 
+long g_quiet_defence_roots = 0;
+
 // roots where the side to move can create a one-move mate THREAT against a defender who is not in check, has many
 // legal moves and at least one defence: pruning that hides the few defences turns the threat into a false mate claim
 bool threat_root(Board& out)
@@ -323,16 +325,22 @@ bool threat_root(Board& out)
             std::vector<orc::Move> dl = d.legal();
             if (dl.size() <= 12) continue;
             Board n = d.after_null();
-            if (orc::mating_moves_in_one(n).empty()) continue;
-            // at least one defence must exist (otherwise the claim would be true)
-            bool defence = false;
+            std::vector<orc::Move> threats = orc::mating_moves_in_one(n);
+            if (threats.empty()) continue;
+            // at least one defence must exist (otherwise the claim would be true); the interesting roots are those
+            // where the defences are few and quiet (a pruning scheme that drops late quiet moves hides them)
+            int defences = 0, loud = 0;
             for (const orc::Move& r : dl)
                 if (orc::mating_moves_in_one(d.after(r)).empty())
                 {
-                    defence = true;
-                    break;
+                    ++defences;
+                    Board dr = d.after(r);
+                    if (d.is_capture(r) || r.promo || dr.in_check(dr.stm)) ++loud;
                 }
-            if (!defence) continue;
+            if (defences == 0) continue;
+            bool strict = tries < 300;
+            if (strict && (defences > 3 || loud > 0 || dl.size() < 16)) continue;
+            if (defences <= 3 && loud == 0) ++g_quiet_defence_roots;
             out = b;
             return true;
         }
@@ -444,7 +452,12 @@ int main(int argc, char** argv)
             else if (sel == 2) B = sparse_mate_in_one();
             else if (sel == 3 || sel == 4)
             {
-                if (threat_root(B)) rec.count("roots:mate-threat-with-few-defences");
+                long before = g_quiet_defence_roots;
+                if (threat_root(B))
+                {
+                    rec.count("roots:mate-threat-with-few-defences");
+                    if (g_quiet_defence_roots > before) rec.count("roots:mate-threat-all-defences-quiet");
+                }
                 else B = mate_candidate();
             }
             else B = random_root(int(i));
@@ -552,7 +565,7 @@ int main(int argc, char** argv)
             break;
         }
         }
-        if (threat) g.depth = 3 + int(rng.below(3));
+        if (threat) g.depth = 2 + int(rng.below(3));
         // clock-only searches that would need real minutes are skipped by construction (<= 2 s clocks)
         set_cur(B, g, table);
         RunResult r = run_go(*rig, P, B, g, CAP);
